@@ -182,7 +182,7 @@ CHECKS = {
     design_ref='DESIGN.md section 4 (C13), 10.7',
     note=('bounded in the NUMBER of components (1..3 panels, 0..2 stiffeners of each kind, 0..2 forces; flange laminates of 1..3 plies in BladeStiff1D) with all '
           'sizes/positions/series orders symbolic; component matrices through kernel contracts (C02-C04, C12); TStiff2D.calc_k0 is under contract in C12, its '
-          'calc_kG0/calc_kM are not; skin-partition additivity rests on the sub-interval additivity of the table contracts (C10); 2 known findings (1-D blade '
+          'calc_kG0/calc_kM in py_stiffeners; the bay constructors add_panel / add_bladestiff1d / add_bladestiff2d / add_tstiff2d are under contract; skin-partition additivity rests on the sub-interval additivity of the table contracts (C10); 3 known findings (BladeStiff2D base placed from skin thicknesses that are not derived yet; 1-D blade '
           'flange stiffness indefinite for flange laminates with extension-shear coupling)'),
     technique='contracts + symbolic execution of the Python ast; exact normal form for offsets; kernel contracts'),
  'C05': dict(
@@ -194,7 +194,7 @@ CHECKS = {
           'the non-null columns (zeros elsewhere) and the argument pass-through of Panel.lb to calc_k0/calc_kG0 are checked.  ConeCyl.lb is executed the same way for '
           'the four load cases (series block [num0:, num0:], fixed part of the geometric stiffness added to K, both solver attempts, zero rows for the prescribed amplitudes), and so is '
           'ConeCyl.eigen, a second copy of that wrapper.'),
-    design_ref='DESIGN.md section 4 (C05/C06)', note=EIG_NOTE + '; 21 known findings (requested count not smaller than the active set: lb, Panel.lb, ConeCyl.lb, ConeCyl.eigen), 1 fixed defect',
+    design_ref='DESIGN.md section 4 (C05/C06)', note=EIG_NOTE + '; 21 known findings (requested count not smaller than the active set: lb, Panel.lb, ConeCyl.lb, ConeCyl.eigen), 2 fixed defects',
     technique='contracts + symbolic execution with abstract shapes; z3 (LIA) shape obligations; assumed solver contracts'),
  'C06': dict(
     category='proof',
@@ -216,8 +216,8 @@ CHECKS = {
           'Analysis.static dispatch is checked the same way.  Termination: all four loops carry ranking functions discharged at every back edge '
           '(load steps: (1-total) + 2 inc with a ghost positive lower bound of the increment; bisection: inc; iterations and line search: counters).'),
     design_ref='DESIGN.md section 4 (C09), 10.21',
-    note=('real arithmetic; callables pure and returning; numpy scalar division does not raise; the linear-problem clause is NOT proved '
-          '(bounded run-time contract grid on the real driver stands in, labelled bounded); 4 known findings '
+    note=('real arithmetic; callables pure and returning; numpy scalar division does not raise; the linear-problem clause (full load, linear solution) is proved for line_search=False under exact solve '
+          '(for line_search=True a bounded run-time contract grid on the real driver stands in, labelled bounded); 4 known findings '
           '(last load factor within 1e-3 of 1 instead of equal to 1)'),
     technique='loop invariants on the real ast, havoc-and-assume VC generation, z3 (QF_LRA/NRA)'),
  'C19': dict(
@@ -250,7 +250,7 @@ CHECKS = {
     text=('fkM/fkMy1y2 of all four panel kernels proved (or refuted) entry-wise against the Hessian of the kinetic energy with the reference-surface '
           'convention of the laminate; Panel.calc_kM executed symbolically with argument pass-through obligations (offset, sub-interval, size); '
           'fkMf of the 1-D blade stiffener against the kinetic energy of the flange strip and BladeStiff1D.calc_kM (arguments h, hb, hf, df; flange plies 1..3).'),
-    design_ref='DESIGN.md section 4 (C04)', note=KERNEL_NOTE + '; 1 fixed defect (sign of the offset coupling, 24 obligations)',
+    design_ref='DESIGN.md section 4 (C04)', note=KERNEL_NOTE + '; 1 fixed defect (sign of the offset coupling, 24 obligations); 1 known finding (BladeStiff2D base placed from skin thicknesses that are not derived yet)',
     technique='contracts on kernels and Python methods; symbolic execution; exact normal form + z3'),
  'C01': dict(
     category='proof',
